@@ -20,18 +20,14 @@ MODELLED = ("genjava.c: gjBValInfoTable, gj0BCallKeyword/Op/OpMod/LitInt/Const/C
             "(not: the emitter genjava.c proper, float/BInt/Word/Ptr rows, library methods - listed in Gen.JMap.untranslated)")
 
 # rows whose 32-bit theorem is `jmap_<name>_spec32`
-PROVED = ["BoolNot", "BoolAnd", "BoolOr", "BoolEQ", "BoolNE", "CharEQ", "CharNE", "CharLT", "CharLE", "CharOrd", "CharNum",
-          "SInt0", "SInt1", "SIntMax", "SIntIsZero", "SIntIsNeg", "SIntIsPos", "SIntIsEven", "SIntIsOdd",
+PROVED = ["BoolFalse", "BoolTrue", "BoolNot", "BoolAnd", "BoolOr", "BoolEQ", "BoolNE", "CharEQ", "CharNE", "CharLT", "CharLE", "CharOrd", "CharNum",
+          "SInt0", "SInt1", "SIntMin", "SIntMax", "SIntIsZero", "SIntIsNeg", "SIntIsPos", "SIntIsEven", "SIntIsOdd",
           "SIntEQ", "SIntNE", "SIntLT", "SIntLE", "SIntNegate", "SIntPrev", "SIntNext", "SIntPlus", "SIntMinus",
           "SIntTimes", "SIntTimesPlus", "SIntMod", "SIntQuo", "SIntRem", "SIntPlusMod", "SIntMinusMod", "SIntTimesMod",
-          "SIntShiftUp", "SIntShiftDn", "SIntBit", "SIntAnd", "SIntOr", "SIntXOr",
+          "SIntShiftUp", "SIntShiftDn", "SIntBit", "SIntNot", "SIntAnd", "SIntOr", "SIntXOr",
           "Byte0", "Byte1", "ByteMin", "HInt0", "HInt1", "HIntMin", "HIntMax", "SIntToByte", "SIntToHInt", "HIntToSInt"]
 # rows whose full statement is refuted with a witness: name -> (theorem, finding signature)
-REFUTED = {"BoolFalse": ("jmap_BoolConst_spec32_statement_refuted", "jmap|BoolConst|spec32"),
-           "BoolTrue": ("jmap_BoolConst_spec32_statement_refuted", "jmap|BoolConst|spec32"),
-           "SIntMin": ("jmap_SIntMin_spec32_refuted", "jmap|SIntMin|spec32"),
-           "SIntNot": ("jmap_SIntNot_spec32_statement_refuted", "jmap|SIntNot|spec32"),
-           "ByteMax": ("jmap_ByteMax_spec32_refuted", "jmap|ByteMax|spec32"),
+REFUTED = {"ByteMax": ("jmap_ByteMax_spec32_refuted", "jmap|ByteMax|spec32"),
            "ByteToSInt": ("jmap_ByteToSInt_spec32_statement_refuted", "jmap|ByteToSInt|spec32")}
 # translated rows without an independent meaning here (correspondence JVM <-> model only)
 NO_SPEC = ["CharMin", "CharMax", "SIntHashCombine"]
@@ -43,7 +39,7 @@ COMBINED = ["SIntPlus", "SIntMinus", "SIntTimes", "SIntTimesPlus", "SIntNegate",
 _P = "AldorVerif.Props.C12"
 THEOREMS = ([(_P, "AldorVerif.C12.jmap_%s_spec32" % n) for n in PROVED]
             + [(_P, "AldorVerif.C12." + t) for t in sorted({v[0] for v in REFUTED.values()})]
-            + [(_P, "AldorVerif.C12.jmap_ByteToSInt_spec32_partial"), (_P, "AldorVerif.C12.jmap_SIntNot_is_identity")]
+            + [(_P, "AldorVerif.C12.jmap_ByteToSInt_spec32_partial")]
             + [(_P, "AldorVerif.C12.agree_within_31bit_%s" % n) for n in AGREE]
             + [(_P, "AldorVerif.C12.jmap_agrees_on_31bit_%s" % n) for n in COMBINED]
             + [(_P, "AldorVerif.C12.routes_differ_outside_31bit"), (_P, "AldorVerif.C12.shift_count_differs_outside_0_31")])
